@@ -289,7 +289,8 @@ def explore(arg):
     seen_terminal = set()
 
     def build(hist):
-        return World(subject, hist)
+        with core.watchdog(20):
+            return World(subject, hist)
 
     def enabled(w, hist):
         return w.enabled()
@@ -316,8 +317,7 @@ def explore(arg):
                                          sum(len(t) for _, t in w.tables())))
         return False
 
-    with core.watchdog(3000):
-        st = core.bfs([], enabled, build, lambda w: w.canon(), check, max_depth=depth)
+    st = core.bfs([], enabled, build, lambda w: w.canon(), check, max_depth=depth)
     p.states = st["states"]
     p.transitions = st["transitions"]
     p.evaluations = st["transitions"]
